@@ -73,7 +73,10 @@ class Compiler:
 
         try:
             for insn in block.insns:
-                if state["context"] == "repeat" and isinstance(insn, (Instruction, WordList)):
+                if state["context"] == "repeat" and (
+                    isinstance(insn, (Instruction, WordList))
+                    or (isinstance(insn, Assignment) and isinstance(insn.target, InstructionPointer))
+                ):
                     # Each copy of a '.repeat' body gets its own tokens, because compilation caches values
                     # on tokens (e.g. './2') and rewrites operand trees in place (hoisting, label fixup)
                     insn = copy.deepcopy(insn)
